@@ -18,6 +18,17 @@
 (* of the code as found (keystream advanced over the whole buffer on every *)
 (* poll, also when the socket returned Pending or accepted a prefix); TLC  *)
 (* returns the counterexample under MC_CipherAsFound.cfg.                  *)
+(*                                                                         *)
+(* The AsyncWrite contract lets the caller do two more things, both part   *)
+(* of "no matter how the socket delays individual writes":                 *)
+(*  - after a Pending answer the caller may ABANDON the buffer (a dropped  *)
+(*    select! branch, a timeout) and offer other bytes next time: the      *)
+(*    content of the not yet reported bytes gets a new version;            *)
+(*    ReuseStalled = TRUE is the wrong design that keeps the ciphertext of *)
+(*    the stalled attempt (MC_CipherStalled.cfg must be rejected).         *)
+(*  - the caller may offer its bytes as several slices (vectored write);   *)
+(*    the stream then takes any non-empty prefix of them through the same  *)
+(*    encryptor (op "wv", split point sp).                                 *)
 (***************************************************************************)
 EXTENDS Integers, Sequences, FiniteSets, TLC
 
@@ -29,7 +40,10 @@ CONSTANTS
   PreFills,        \* bytes already in the caller's buffer before a poll
   PartialAccept,   \* BOOLEAN: may the socket accept only a prefix of a write
   ArriveWhole,     \* BOOLEAN: the peer's bytes arrive in one portion per mode (read side not explored)
-  CommitOnAccept   \* BOOLEAN design switch
+  CommitOnAccept,  \* BOOLEAN design switch
+  MaxAbandon,      \* how many times the caller abandons a buffer after Pending
+  Vectored,        \* BOOLEAN: may the caller offer two slices instead of one buffer
+  ReuseStalled     \* BOOLEAN design switch (wrong: ciphertext of a stalled attempt is kept for the next poll)
 
 VARIABLES
   ws, wi, off,     \* the writes to perform, index of the current one, bytes of it already reported written
@@ -44,9 +58,11 @@ VARIABLES
   taken,           \* bytes taken from the socket so far
   decPos, surf,    \* decryptor position; what has been surfaced to the caller: sequence of plaintext indices (0 = garbage)
   rmode, rsw,      \* reader mode and the byte index after which the peer switched
-  sched            \* the schedule (history) for export
+  sched,           \* the schedule (history) for export
+  ver, want,       \* content version of the bytes not yet reported; versions of the bytes reported (one per byte)
+  lastPend, stalled, abandons  \* the previous write poll was Pending; version encrypted by that attempt; abandons so far
 
-vars == <<ws, wi, off, sw, mode, encPos, acc, rep, pend, avail, taken, decPos, surf, rmode, rsw, sched>>
+vars == <<ws, wi, off, sw, mode, encPos, acc, rep, pend, avail, taken, decPos, surf, rmode, rsw, sched, ver, want, lastPend, stalled, abandons>>
 
 Sum(s) == LET F[i \in 0..Len(s)] == IF i = 0 THEN 0 ELSE F[i-1] + s[i] IN F[Len(s)]
 Total == Sum(ws)
@@ -61,9 +77,13 @@ Init ==
   /\ rmode = (IF sw = 0 THEN "cipher" ELSE "plain")
   /\ rsw = PlainUpTo(sw)
   /\ sched = <<>>
+  /\ ver = 0 /\ want = <<>> /\ lastPend = FALSE /\ stalled = 0 /\ abandons = 0
 
 \* tags of plaintext bytes (from+1 .. from+n) encrypted starting at keystream position pos
-Enc(from, n, pos) == [i \in 1..n |-> IF mode = "plain" THEN <<0, from + i>> ELSE <<pos + i, from + i>>]
+\* (third component: the version of the content that was encrypted)
+EncV(from, n, pos, v) == [i \in 1..n |-> IF mode = "plain" THEN <<0, from + i, v>> ELSE <<pos + i, from + i, v>>]
+\* the version the stream encrypts in this poll: the caller's current bytes -- or, in the wrong design, those of the stalled attempt
+UsedVer == IF ReuseStalled /\ lastPend THEN stalled ELSE ver
 
 WritesDone == wi > Len(ws)
 
@@ -72,12 +92,15 @@ PollWrite ==
   /\ ~WritesDone
   /\ LET n == ws[wi] - off          \* bytes offered
          from == rep                \* plaintext index of the first offered byte - 1
-     IN \/ /\ pend < MaxPending /\ pend' = pend + 1
+     IN \E sp \in (IF Vectored /\ n >= 2 THEN 0..(n-1) ELSE {0}) :      \* 0 = one buffer; sp >= 1 = two slices, the first of sp bytes
+        \/ /\ pend < MaxPending /\ pend' = pend + 1
            /\ encPos' = IF CommitOnAccept \/ mode = "plain" THEN encPos ELSE encPos + n
-           /\ sched' = Append(sched, [op |-> "w", n |-> n, out |-> "pending", k |-> 0])
-           /\ UNCHANGED <<acc, rep, off, wi, mode>>
+           /\ sched' = Append(sched, [op |-> IF sp = 0 THEN "w" ELSE "wv", n |-> n, out |-> "pending", k |-> 0, sp |-> sp])
+           /\ lastPend' = TRUE /\ stalled' = (IF lastPend THEN stalled ELSE ver)
+           /\ UNCHANGED <<acc, rep, off, wi, mode, want>>
         \/ \E k \in (IF PartialAccept THEN 1..n ELSE {n}) :
-           /\ acc' = acc \o SubSeq(Enc(from, n, encPos), 1, k)
+           /\ acc' = acc \o SubSeq(EncV(from, n, encPos, UsedVer), 1, k)
+           /\ want' = want \o [i \in 1..k |-> ver]
            /\ rep' = rep + k
            /\ encPos' = IF mode = "plain" THEN encPos ELSE IF CommitOnAccept THEN encPos + k ELSE encPos + n
            /\ IF off + k = ws[wi]
@@ -85,9 +108,17 @@ PollWrite ==
                    \* encryption is switched on between two writes (apply_encryption between packets)
                    /\ mode' = IF wi = sw THEN "cipher" ELSE mode
               ELSE /\ wi' = wi /\ off' = off + k /\ mode' = mode
-           /\ sched' = Append(sched, [op |-> "w", n |-> n, out |-> "accept", k |-> k])
+           /\ sched' = Append(sched, [op |-> IF sp = 0 THEN "w" ELSE "wv", n |-> n, out |-> "accept", k |-> k, sp |-> sp])
+           /\ lastPend' = FALSE /\ stalled' = stalled
            /\ UNCHANGED pend
-  /\ UNCHANGED <<ws, sw, avail, taken, decPos, surf, rmode, rsw>>
+  /\ UNCHANGED <<ws, sw, avail, taken, decPos, surf, rmode, rsw, ver, abandons>>
+
+\* after a Pending answer the caller gives up on the bytes it offered and will offer others (same amount) next time
+Abandon ==
+  /\ ~WritesDone /\ lastPend /\ abandons < MaxAbandon
+  /\ ver' = ver + 1 /\ abandons' = abandons + 1
+  /\ sched' = Append(sched, [op |-> "abandon", n |-> ws[wi] - off, out |-> "-", k |-> 0, sp |-> 0])
+  /\ UNCHANGED <<ws, wi, off, sw, mode, encPos, acc, rep, pend, avail, taken, decPos, surf, rmode, rsw, want, lastPend, stalled>>
 
 \* the peer's bytes arrive at the socket in arbitrary portions (never past the switch point while still in plain mode:
 \* in the connection the switch happens between two packets, after the plain ones were read completely)
@@ -96,8 +127,8 @@ Arrive ==
   /\ WritesDone /\ ArriveLimit > 0 /\ avail = 0      \* the next portion arrives once the reader has drained the previous one
   /\ \E n \in (IF ArriveWhole THEN {ArriveLimit} ELSE 1..ArriveLimit) :
        /\ avail' = avail + n
-       /\ sched' = Append(sched, [op |-> "arrive", n |-> n, out |-> "-", k |-> 0])
-  /\ UNCHANGED <<ws, wi, off, sw, mode, encPos, acc, rep, pend, taken, decPos, surf, rmode, rsw>>
+       /\ sched' = Append(sched, [op |-> "arrive", n |-> n, out |-> "-", k |-> 0, sp |-> 0])
+  /\ UNCHANGED <<ws, wi, off, sw, mode, encPos, acc, rep, pend, taken, decPos, surf, rmode, rsw, ver, want, lastPend, stalled, abandons>>
 
 \* peer tag of byte j of its stream
 PeerTag(j) == IF j <= rsw THEN <<0, j>> ELSE <<j - rsw, j>>
@@ -111,7 +142,7 @@ PollRead ==
        /\ pre < cap
        /\ IF avail = 0
           THEN /\ pend < MaxPending /\ pend' = pend + 1
-               /\ sched' = Append(sched, [op |-> "r", n |-> cap, out |-> "pending", k |-> pre])
+               /\ sched' = Append(sched, [op |-> "r", n |-> cap, out |-> "pending", k |-> pre, sp |-> 0])
                /\ UNCHANGED <<avail, taken, decPos, surf, rmode>>
           ELSE LET room == cap - pre
                    m == IF avail < room THEN avail ELSE room
@@ -120,11 +151,11 @@ PollRead ==
                   /\ decPos' = IF rmode = "plain" THEN decPos ELSE decPos + m
                   /\ taken' = taken + m /\ avail' = avail - m
                   /\ rmode' = IF rmode = "plain" /\ taken + m = rsw THEN "cipher" ELSE rmode
-                  /\ sched' = Append(sched, [op |-> "r", n |-> cap, out |-> "read", k |-> pre])
+                  /\ sched' = Append(sched, [op |-> "r", n |-> cap, out |-> "read", k |-> pre, sp |-> 0])
                   /\ UNCHANGED pend
-  /\ UNCHANGED <<ws, wi, off, sw, mode, encPos, acc, rep, rsw>>
+  /\ UNCHANGED <<ws, wi, off, sw, mode, encPos, acc, rep, rsw, ver, want, lastPend, stalled, abandons>>
 
-Next == PollWrite \/ Arrive \/ PollRead
+Next == PollWrite \/ Abandon \/ Arrive \/ PollRead
 Spec == Init /\ [][Next]_vars
 
 Done == WritesDone /\ taken = Total
@@ -133,7 +164,7 @@ Done == WritesDone /\ taken = Total
 (* C05 *)
 \* what the socket accepted is exactly the one continuous stream over the plaintext reported as written
 WriteStream == /\ Len(acc) = rep
-               /\ \A i \in 1..Len(acc) : acc[i] = IF i <= PlainUpTo(sw) THEN <<0, i>> ELSE <<i - PlainUpTo(sw), i>>
+               /\ \A i \in 1..Len(acc) : acc[i] = IF i <= PlainUpTo(sw) THEN <<0, i, want[i]>> ELSE <<i - PlainUpTo(sw), i, want[i]>>
 \* what the reader is given is the matching decryption of what the socket produced
 ReadStream == /\ Len(surf) = taken
               /\ \A i \in 1..Len(surf) : surf[i] = i
